@@ -139,6 +139,23 @@ CLAIMS = {
         "overflow not modelled; NEON proved but not executed on this host. Trusted: Lean kernel, the two translators, the "
         "intrinsic->lanes table.",
    design="§3 C17"),
+ "C13": dict(
+   engine="persist+codec",
+   technique="Lean 4 proof (per fault class over every history; byte-level scanner lemmas; refutation of the full statement by witnesses) + differential correspondence on enumerated single faults",
+   text="Theorems over any directory reachable by any history (DInv): C13_manifest_removed/_unparsable, C13_listed_segment_removed, "
+        "_unopenable, _corrupt_frames (refused); C13_unlisted_segment_harmless, C13_unpointed_snapshot_harmless (recovery reads "
+        "nothing else); C13_pointed_snapshot_no_fallback; C13_partial(+_reachable) combining them. The full statement is FALSE: "
+        "C13_statement_false with witnesses C13_witness_old_segment_prefix / _snapshot_fallback / _manifest_pointer_lost, and "
+        "C13_silent_prefix_always_starts (the unseen class is accepted after EVERY history). Byte level: C13_codec_roundtrip, "
+        "C13_truncation_reads_clean (any cut length), C13_checksum_mismatch_counted, C13_length_past_eof_silent. Tie: ~14k (quick) "
+        "enumerated faults (removal, truncation, bit flips per structural field) on directories from random histories: the real "
+        "readers' view of the damaged file feeds the model, real strict recover vs recoverAfter; 1.7k damaged byte strings real "
+        "WalReader vs Codec.readFile with CRC-32 computed in Lean.",
+   note="Partial, with three known findings (KF-C13-wal-silent-prefix, KF-C13-snapshot-fallback, KF-C13-manifest-unchecksummed: "
+        "format-level, not small patches). Not proved: CRC-32 detects every single-bit flip (polynomial fact; every enumerated flip "
+        "is checked); bincode decoding; snapshot byte layout (exercised, not modelled); the server binary's start-up wrapper "
+        "(a removed MANIFEST makes the server initialise an empty database - engine-level recover refuses; see DESIGN).",
+   design="§3 C13"),
 }
 
 NOT_APPLICABLE = {
